@@ -1855,7 +1855,7 @@ class Analyzer:
         self.res.edge_states = edge
         if collect:
             self.collect = True
-            self.eb = ExprBuilder(body)
+            self.eb = ExprBuilder(body, inline_getters=True)
             for bi in rpo:
                 st = ins.get(bi)
                 if st is None or st.bottom:
